@@ -710,7 +710,7 @@ where
         );
     }
     let Some((terminal, tag)) = M::Terminal::parse("T") else {
-        panic!("could not find the T terminal")
+        return err("binary mode is not supported for this kind of decision diagram");
     };
     let terminal = EdgeDropGuard::new(manager, manager.get_terminal(terminal)?.with_tag_owned(tag));
 
